@@ -1,6 +1,7 @@
 // E1 "wire": a real cppcms::service with its real HTTP / SCGI / FastCGI front-ends, event loop, worker pool and
 // applications, served over simulated sockets to simulated peers (C01, C02, C03, C12).
 #include <cppcms/service.h>
+#include <booster/aio/io_service.h>
 #include <cppcms/application.h>
 #include <cppcms/applications_pool.h>
 #include <cppcms/mount_point.h>
@@ -30,6 +31,7 @@ struct AppWorld {
 	std::map<std::string,int> completed;     // request tag -> handler ran to its end
 	int untagged_entries = 0; int filters_installed = 0; std::string save_dir; int saved = 0;   // save_dir: where the echo application keeps odd-sized uploads with file::save_to()
 	std::string exception;                   // an exception that left a handler (must be handled by cppcms)
+	std::map<std::string,int> flush_issued,flush_done,flush_aborted; int async_flushes = 0, deferred_continuations = 0, uploads_aborted = 0;   // completion handlers of context::async_flush_output per request tag
 };
 AppWorld *AW = nullptr;
 
@@ -66,38 +68,62 @@ public:
 		response().set_plain_text_header();
 		response().out() << banner() << t;
 	}
-	void writer(){
-		std::string script = request().get("s"); uint64_t salt = strtoull(request().get("salt").c_str(),nullptr,10); std::string key = request().get("cache");
-		cppcms::http::response &r = response();
-		r.set_plain_text_header();     // a cached page carries no headers: whatever decides its encoding is fixed before fetch_page
-		if(!key.empty() && cache().fetch_page(key)) return;
-		size_t p = 0; uint64_t pos = 0; bool raw_hdr = false;
+	// the writer script is resumable: an asynchronous application may hand a part of the page to the peer with context::async_flush_output() and go on writing from the completion handler (token F)
+	struct WState { std::string script,key,tag; size_t p = 0; uint64_t pos = 0,salt = 0; bool raw_hdr = false,async = false; };
+	/* returns true when the script has run to its end, false when it suspended itself behind an asynchronous flush (it then owns the context and finishes the response itself) */
+	static bool writer_steps(booster::shared_ptr<WState> st,cppcms::http::context &ctx,cppcms::application *app){
+		cppcms::http::response &r = ctx.response(); const std::string &script = st->script; const std::string &key = st->key; uint64_t salt = st->salt; size_t &p = st->p; uint64_t &pos = st->pos; bool &raw_hdr = st->raw_hdr; bool is_async = st->async;
 		while(p < script.size()){ size_t e = script.find('.',p); if(e == std::string::npos) e = script.size(); std::string t = script.substr(p,e-p); p = e + 1; if(t.empty()) continue;
 			long n = t.size() > 1 ? strtol(t.c_str()+1,nullptr,10) : 0;
 			switch(t[0]){
 			case 'w': { if(n > 400000) n = 400000; std::string d((size_t)n,'\0'); for(long i=0;i<n;i++) d[i] = (char)pat(salt,pos+i); pos += n; r.out().write(d.data(),d.size()); } break;
 			case 'p': { if(n > 4000) n = 4000; for(long i=0;i<n;i++){ r.out().put((char)pat(salt,pos)); pos++; } } break;   // byte-at-a-time writes (counted as w<n> by the model)
 			case 'f': r.out() << std::flush; break;
+			case 'F': if(is_async && (r.io_mode() == cppcms::http::response::asynchronous || r.io_mode() == cppcms::http::response::asynchronous_raw)){
+					booster::shared_ptr<cppcms::http::context> c = app ? app->release_context() : ctx.shared_from_this(); r.out();
+					{ simk::TsanIgnore ign; AW->async_flushes++; AW->flush_issued[st->tag]++; }
+					c->async_flush_output([c,st](cppcms::http::context::completion_type ct){
+						if(ct != cppcms::http::context::operation_completed){ simk::TsanIgnore ign; AW->flush_aborted[st->tag]++; return; }
+						{ simk::TsanIgnore ign; AW->flush_done[st->tag]++; }
+						if(writer_steps(st,*c,nullptr)){ { simk::TsanIgnore ign; if(!st->tag.empty()) AW->completed[st->tag]++; } c->async_complete_response(); } });
+					return false; }
+				else r.out() << std::flush;
+				break;
+			case 'D': if(is_async){   /* the application returns to the event loop without starting an asynchronous operation and goes on with this response on a later event (comet style) */
+					booster::shared_ptr<cppcms::http::context> c = app ? app->release_context() : ctx.shared_from_this(); { simk::TsanIgnore ign; AW->deferred_continuations++; }
+					c->service().get_io_service().post([c,st]{ if(writer_steps(st,*c,nullptr)){ { simk::TsanIgnore ign; if(!st->tag.empty()) AW->completed[st->tag]++; } c->async_complete_response(); } });
+					return false; }
+				break;
 			case 'b': r.setbuf((int)n); break;
 			case 'h': r.set_header("X-T" + std::to_string(n),"v" + std::to_string(n*7)); break;
+			case 'H': r.add_header("X-A","a" + std::to_string(n)); break;                    /* several header lines of one name */
+			case 'e': r.set_header("X-E" + std::to_string(n),"gone"); r.erase_header("X-E" + std::to_string(n)); break;   /* set and taken back: must not be sent */
 			case 'c': r.set_cookie(cppcms::http::cookie("ck" + std::to_string(n),"cv" + std::to_string(n*3))); break;
-			case 'm': if(!raw_hdr && key.empty()){ int m = (int)n; if(m == 1) r.io_mode(cppcms::http::response::nogzip); else if(m == 3 && is_asynchronous()) r.io_mode(cppcms::http::response::asynchronous); } break;
-			case 'a': if(is_asynchronous()) r.full_asynchronous_buffering(n != 0); break;
-			case 'r': if(pos == 0 && !raw_hdr && key.empty()){ raw_hdr = true; r.io_mode(is_asynchronous() ? cppcms::http::response::asynchronous_raw : cppcms::http::response::raw);
+			case 'm': if(!raw_hdr && key.empty()){ int m = (int)n; if(m == 1) r.io_mode(cppcms::http::response::nogzip); else if(m == 3 && is_async) r.io_mode(cppcms::http::response::asynchronous); } break;
+			case 'a': if(is_async) r.full_asynchronous_buffering(n != 0); break;
+			case 'r': if(pos == 0 && !raw_hdr && key.empty()){ raw_hdr = true; r.io_mode(is_async ? cppcms::http::response::asynchronous_raw : cppcms::http::response::raw);
 					// the application writes its own (CGI style) header block, in pieces of n bytes
 					// the two headers the protocol back-ends interpret are spelled in different letter cases (header names are case-insensitive), half of the time with a status other than 200
-					static const char *st[] = {"Status: 200 OK","status: 203 Alt","STATUS: 200 OK","sTaTuS: 203 Alt"}; std::string hb = std::string("Content-Type: text/plain\r\nX-Raw: yes\r\n") + st[salt & 3] + "\r\n\r\n"; size_t step = n > 0 ? (size_t)n : hb.size();
+					static const char *stl[] = {"Status: 200 OK","status: 203 Alt","STATUS: 200 OK","sTaTuS: 203 Alt"}; std::string hb = std::string("Content-Type: text/plain\r\nX-Raw: yes\r\n") + stl[salt & 3] + "\r\n\r\n"; size_t step = n > 0 ? (size_t)n : hb.size();
 					for(size_t o=0;o<hb.size();o+=step){ r.out().write(hb.data()+o,std::min(step,hb.size()-o)); if(n % 2) r.out() << std::flush; } } break;
-			case 'l': { std::ostringstream ss; ss << n; r.content_length(n); } break;
+			case 'l': { r.content_length(n); } break;
 			case 't': if(key.empty()) r.content_type(n == 0 ? "text/plain" : n == 1 ? "application/octet-stream" : "text/html; charset=utf-8"); break;
 			default: break; }
 		}
-		if(!key.empty()) cache().store_page(key,30);
+		if(!key.empty()) ctx.cache().store_page(key,30);
+		return true;
+	}
+	bool writer(const std::string &tag){
+		booster::shared_ptr<WState> st(new WState()); st->script = request().get("s"); st->salt = strtoull(request().get("salt").c_str(),nullptr,10); st->key = request().get("cache"); st->tag = tag; st->async = is_asynchronous();
+		response().set_plain_text_header();     // a cached page carries no headers: whatever decides its encoding is fixed before fetch_page
+		if(!st->key.empty() && cache().fetch_page(st->key)) return true;
+		return writer_steps(st,context(),this);
 	}
 	virtual void main(std::string path){
 		std::string tag = request().getenv("HTTP_X_REQ_ID");
 		{ simk::TsanIgnore ign; if(tag.empty()) AW->untagged_entries++; else AW->entered[tag]++; }
-		if(path.compare(0,7,"/writer") == 0) writer(); else echo();
+		if(path.compare(0,6,"/throw") == 0) throw std::runtime_error("the application failed on purpose");   /* an exception leaving the handler: that request is answered 500, nothing else is disturbed */
+		if(path.compare(0,7,"/writer") == 0){ if(!writer(tag)) return; } else echo();
 		{ simk::TsanIgnore ign; if(!tag.empty()) AW->completed[tag]++; }
 		if(is_asynchronous()) release_context()->async_complete_response();
 	}
@@ -114,13 +140,13 @@ struct FilterData {
 	int behav = 0; std::string seen; bool bad_progress = false;   // behav: 0 passive; 1 reads every completed part (validation); 2 also re-reads the part on every progress call; 3 sniffs the first 4 bytes of a completed part
 	static std::string slurp(cppcms::http::file &f,size_t max){ std::istream &in = f.data(); in.clear(); in.seekg(0); std::string r; char b[512]; while(r.size() < max){ in.read(b,(std::streamsize)std::min(sizeof(b),max - r.size())); std::streamsize n = in.gcount(); if(n <= 0) break; r.append(b,(size_t)n); } in.clear(); return r; }
 	struct RawF : cppcms::http::raw_content_filter { FilterData *d;
-		void on_data_chunk(void const *p,size_t n) override { d->raw.append((char const *)p,n); d->chunks++; }
+		void on_data_chunk(void const *p,size_t n) override { d->raw.append((char const *)p,n); d->chunks++; if(d->behav == 6 && d->chunks == 1){ { simk::TsanIgnore ign; AW->uploads_aborted++; } throw cppcms::http::abort_upload(415); } }
 		void on_end_of_content() override { d->end++; }
 		void on_error() override { d->err++; simk::TsanIgnore ign; AW->on_error[d->tag]++; } } rf;
 	struct MpF : cppcms::http::multipart_filter { FilterData *d;
-		void on_new_file(cppcms::http::file &) override { d->new_file++; d->last_size = -1; }
+		void on_new_file(cppcms::http::file &) override { d->new_file++; d->last_size = -1; if(d->behav == 4 && d->new_file == 1){ { simk::TsanIgnore ign; AW->uploads_aborted++; } throw cppcms::http::abort_upload(403); } }   /* behav 4: the filter refuses the upload when it sees its first part, 5: when that part is complete */
 		void on_upload_progress(cppcms::http::file &f) override { d->progress++; if((long long)f.size() < d->last_size) d->size_shrank = true; d->last_size = f.size(); if(d->behav == 2){ std::string r = slurp(f,(size_t)1 << 30); if((long long)r.size() != (long long)f.size()) d->bad_progress = true; } }
-		void on_data_ready(cppcms::http::file &f) override { d->ready++; if(d->behav == 1 || d->behav == 2){ std::string r = slurp(f,(size_t)1 << 30); d->seen += f.name() + ":" + std::to_string(r.size()) + ":" + std::to_string((unsigned long long)wire::fnv(r)) + ";"; } else if(d->behav == 3){ d->seen += f.name() + ":" + slurp(f,4) + ";"; } }
+		void on_data_ready(cppcms::http::file &f) override { d->ready++; if(d->behav == 5 && d->ready == 1){ { simk::TsanIgnore ign; AW->uploads_aborted++; } throw cppcms::http::abort_upload(422); } if(d->behav == 1 || d->behav == 2){ std::string r = slurp(f,(size_t)1 << 30); d->seen += f.name() + ":" + std::to_string(r.size()) + ":" + std::to_string((unsigned long long)wire::fnv(r)) + ";"; } else if(d->behav == 3){ d->seen += f.name() + ":" + slurp(f,4) + ";"; } }
 		void on_end_of_content() override { d->end++; }
 		void on_error() override { d->err++; simk::TsanIgnore ign; AW->on_error[d->tag]++; } } mf;
 	FilterData(){ rf.d = this; mf.d = this; }
@@ -132,9 +158,10 @@ public:
 		std::string tag = request().getenv("HTTP_X_REQ_ID");
 		if(!request().is_ready()){
 			// called before the content is read: install the content filter
-			FilterData *fd = new FilterData; fd->tag = tag; fd->mode = path.compare(0,7,"/echomp") == 0 ? 2 : 1;
+			if(path == "/aborthdr"){ { simk::TsanIgnore ign; AW->uploads_aborted++; } throw cppcms::http::abort_upload(401); }   /* the application refuses the upload on the strength of the headers alone */
+			FilterData *fd = new FilterData; fd->tag = tag; fd->mode = path.compare(0,7,"/echomp") == 0 ? 2 : 1; if(path == "/abortraw") fd->behav = 6;
 			if(request().content_type_parsed().is_multipart_form_data() == false) fd->mode = 1;
-			if(fd->mode == 2 && path.size() > 7 && path[7] >= '1' && path[7] <= '3') fd->behav = path[7] - '0';
+			if(fd->mode == 2 && path.size() > 7 && path[7] >= '1' && path[7] <= '5') fd->behav = path[7] - '0';
 			{ std::string xl = request().getenv("HTTP_X_LIMIT"); if(!xl.empty()){ long long l = atoll(xl.c_str()); request().limits().content_length_limit((size_t)l); request().limits().multipart_form_data_limit(l); } }   // per-request limits, set before the content is read
 			context().reset_specific<FilterData>(fd);
 			if(fd->mode == 1) request().set_content_filter(fd->rf); else request().set_content_filter(fd->mf);
@@ -304,7 +331,7 @@ struct E1 : Engine {
 		static const char *methods[] = {"GET","GET","POST","POST","PUT","DELETE","OPTIONS","X-Custom.Method"};
 		std::string m = methods[r.below(8)]; q["method"] = m; q["script"] = async_mount ? "/a" : "/s";
 		bool filt = async_mount && (m == "POST" || m == "PUT") && (prop == "C12" || prop == "C02") && r.below(3) == 0; if(filt) q["script"] = "/f";
-		std::string path = filt && r.below(2) ? "/echomp" : "/echo"; if(path == "/echomp" && r.below(2)) path += (char)('1' + r.below(3));   /* the digit selects what the multipart filter does with the parts (reads them / sniffs them) */ int ns = r.below(4); for(int i=0;i<ns;i++){ path += "/"; unsigned x = r.below(8); if(x == 0) path += ""; else if(x == 1) path += r.below(2) ? "%41b%2Fc" : "%4ab%2fc%e2%82%Ac"; else if(x == 2) path += r.below(3) ? "a%20b" : "a%20sb%25n%25s%20s";   /* what a printf-style formatter must never see as its format */ else if(x == 3) path += r.below(3) ? "." : "u{8BIT}"; else path += rnd_token(r,1,8); }
+		std::string path = filt && r.below(2) ? "/echomp" : "/echo"; if(path == "/echomp" && r.below(2)) path += (char)('1' + r.below(r.below(2) ? 3 : 5)); if(filt && r.below(6) == 0) path = r.below(2) ? "/abortraw" : "/aborthdr";   /* the digit selects what the multipart filter does with the parts (reads them / sniffs them) */ int ns = r.below(4); for(int i=0;i<ns;i++){ path += "/"; unsigned x = r.below(8); if(x == 0) path += ""; else if(x == 1) path += r.below(2) ? "%41b%2Fc" : "%4ab%2fc%e2%82%Ac"; else if(x == 2) path += r.below(3) ? "a%20b" : "a%20sb%25n%25s%20s";   /* what a printf-style formatter must never see as its format */ else if(x == 3) path += r.below(3) ? "." : "u{8BIT}"; else path += rnd_token(r,1,8); }
 		q["path"] = path; if(filt && r.below(3) == 0) q["xlimit_mode"] = 1 + (int)r.below(4);   /* the filter application sets the limits of this very request: half the body, one byte less, exactly, more than enough */
 		if(r.below(3) == 0){ static const char *hosts[] = {"internal.example","internal.example","internal.example:8080","xinternal.example","internal.example.evil","internal.example:80x","other.example:8080"}; q["host"] = hosts[r.below(7)]; }   // an application is mounted for the host internal.example(:port) only: every request of a kept-alive connection is dispatched by its own Host
 		if(!filt && gen_fwd()) q["host"] = "fwd.example";   /* forwarding.rules: requests for this host are relayed to a second service (SCGI back-end) whatever front-end they arrived on */
@@ -320,6 +347,7 @@ struct E1 : Engine {
 		if(r.below(20) == 0){ J h = J::arr(); h.push("X-Long-Name-" + rnd_token(r,110,300)); h.push(rnd_token(r,0,10)); hs.push(h); }   // FastCGI: name length needs the 4-byte form
 		if(r.below(20) == 0 && long_budget >= 2*1020){ int len = 1020 + (int)r.below(std::min(1980,long_budget/2 - 1020) + 1); long_budget -= 2*len; q["query"] = "long=" + rnd_token(r,len,len); q["has_query"] = true; }
 		if(r.below(25) == 0 && long_budget >= 2*1020){ int len = 1020 + (int)r.below(std::min(1480,long_budget/2 - 1020) + 1); long_budget -= 2*len; path += "/" + rnd_token(r,len,len); q["path"] = path; }
+		if(r.below(4) == 0){ static const char *fw[] = {"10.0.0.7","192.168.44.5","2001:db8::17","203.0.113.9, 10.0.0.1","unknown"}; J h = J::arr(); h.push("X-Forwarded-For"); h.push(fw[r.below(5)]); hs.a.insert(hs.a.begin() + r.below(hs.a.size() + 1),h); }   /* behind a proxy (http.proxy.behind) this header, request by request, is the peer's address; otherwise it is a header like any other */
 		q["headers"] = hs;
 		J cs = J::arr(); int nc = r.below(4); for(int i=0;i<nc;i++){ J c = J::arr(); c.push(rnd_token(r,1,6) + std::to_string(i)); c.push(rnd_token(r,0,12)); c.push((int)(r.below(3)==0)); cs.push(c); } q["cookies"] = cs;
 		if((m == "POST" || m == "PUT") && (prop == "C12" ? r.below(10) < 8 : r.below(10) == 0)){
@@ -382,7 +410,7 @@ struct E1 : Engine {
 		static const int bufs[] = {1,7,64,1024,16384,65536};
 		J cfg = J::obj(); cfg["reactor"] = (int)r.below(3); cfg["worker_threads"] = 1 + (int)r.below(3);
 		cfg["output_buffer_size"] = bufs[r.below(6)]; cfg["async_output_buffer_size"] = bufs[r.below(6)]; cfg["input_buffer_size"] = bufs[r.below(6)];
-		cfg["syslog"] = r.below(6) == 0 ? 1 + (int)r.below(2) : 0;
+		cfg["syslog"] = r.below(6) == 0 ? 1 + (int)r.below(2) : 0; cfg["proxy_behind"] = (int)(r.below(4) == 0); cfg["mount_style"] = r.below(2) ? 0 : (int)r.below(4); if((prop == "C02" || prop == "C12") && r.below(8) == 0){ static const int hk[] = {2097152,4194304,5242880}; cfg["huge_limits_kb"] = hk[r.below(3)]; }   /* limits of 2 GiB and more (given in KB): a site that takes very large uploads */
 		cfg["gzip"] = (int)r.below(2); cfg["gzip_level"] = (int)r.below(10) - 1; cfg["gzip_buffer"] = r.below(2) ? 0 : bufs[1 + r.below(5)];
 		cfg["http_timeout"] = 10 + (int)r.below(20); gen_limit() = 0; if(prop == "C12" && r.below(2)){ static const int lk[] = {1,4,16,64,2048}; cfg["content_limit_kb"] = lk[r.below(5)]; cfg["multipart_limit_kb"] = std::max<int>(lk[r.below(5)],(int)cfg.geti("content_limit_kb")*2); gen_limit() = (size_t)cfg.geti("content_limit_kb") * 1024; } { static const int fm[] = {0,1,100,4096,131072}; cfg["file_in_memory_limit"] = fm[r.below(5)]; }
 		p["cfg"] = cfg;
@@ -414,20 +442,20 @@ struct E1 : Engine {
 					if(rawmode) sc += "r" + std::to_string(r.below(3) ? 1 + r.below(70) : 0) + ".";
 					if(r.below(3)==0) sc += "b" + std::to_string(r.below(4) ? bufs[r.below(6)] : 0) + ".";
 					if(!rawmode && r.below(3)==0) sc += "m" + std::string(am ? "3" : r.below(2) ? "1" : "0") + "."; if(async_mount && r.below(3)==0) sc += std::string("a") + (r.below(2) ? "1" : "0") + ".";
-					int nh = r.below(4); for(int k=0;k<nh;k++) sc += "h" + std::to_string(r.below(50)) + "."; int nck = r.below(3); for(int k=0;k<nck;k++) sc += "c" + std::to_string(r.below(50)) + ".";
+					int nh = r.below(4); for(int k=0;k<nh;k++) sc += "h" + std::to_string(r.below(50)) + "."; int nck = r.below(3); for(int k=0;k<nck;k++) sc += "c" + std::to_string(r.below(50)) + "."; if(!rawmode && r.below(4) == 0){ int na = 1 + r.below(3); for(int k=0;k<na;k++) sc += "H" + std::to_string(k*100 + r.below(50)) + "."; } if(!rawmode && r.below(5) == 0) sc += "e" + std::to_string(r.below(50)) + ".";
 					if(r.below(4)==0) sc += "t" + std::to_string(r.below(3)) + ".";
-					size_t total = 0; for(int k=0;k<n;k++){ unsigned x = r.below(10); if(x < 6){ size_t sz = r.below(3) ? r.below(300) : sizes[r.below(19)]; if(total + sz > (thorough ? 400000u : 150000u)) sz = 10; total += sz; sc += "w" + std::to_string(sz) + "."; } else if(x < 8) sc += "f."; else if(x == 8) sc += "b" + std::to_string(bufs[r.below(6)]) + "."; else sc += "p" + std::to_string(r.below(40)) + "."; }
+					size_t total = 0; for(int k=0;k<n;k++){ unsigned x = r.below(10); if(x < 6){ size_t sz = r.below(3) ? r.below(300) : sizes[r.below(19)]; if(total + sz > (thorough ? 400000u : 150000u)) sz = 10; total += sz; sc += "w" + std::to_string(sz) + "."; } else if(x < 8) sc += (async_mount && r.below(2)) ? (r.below(3) == 0 ? "D." : "F.") : "f."; else if(x == 8) sc += "b" + std::to_string(bufs[r.below(6)]) + "."; else sc += "p" + std::to_string(r.below(40)) + "."; }
 					{ // tiny buffers / channels make every byte a scheduling step: keep such runs small
 						int ob = (int)cfg.geti("output_buffer_size"), ab = (int)cfg.geti("async_output_buffer_size"), cc = (int)c.geti("cap_to_client"); int narrow = std::min(std::min(ob,ab),cc); size_t cap_total = narrow <= 8 ? 3000 : narrow <= 64 ? 20000 : 400000;
 						if(total > cap_total){ std::string sc2; size_t run = 0; size_t p0 = 0; while(p0 < sc.size()){ size_t q0 = sc.find('.',p0); if(q0 == std::string::npos) q0 = sc.size(); std::string t = sc.substr(p0,q0-p0); p0 = q0 + 1; if(!t.empty() && t[0] == 'w'){ size_t n0 = strtoul(t.c_str()+1,nullptr,10); if(run + n0 > cap_total) n0 = run < cap_total ? std::min<size_t>(cap_total-run,n0) % 97 : 3; run += n0; t = "w" + std::to_string(n0); } sc2 += t + "."; } sc = sc2; } }
 					e["kind"] = "writer"; e["script"] = sc; e["salt"] = (long long)r.below(100000); e["gzip"] = (int)(r.below(3) == 0); if(rawmode) e["gzip"] = 0; if(r.below(10) == 0) e["abort_after"] = (int)r.below(3000); if(!rawmode && r.below(8) == 0){ e["cache"] = "pg" + std::to_string(r.below(2)); std::string sc3; size_t p0 = 0; while(p0 < sc.size()){ size_t q0 = sc.find('.',p0); if(q0 == std::string::npos) q0 = sc.size(); std::string t = sc.substr(p0,q0-p0); p0 = q0 + 1; if(!t.empty() && t[0] != 't' && t[0] != 'm') sc3 += t + "."; } e["script"] = sc3; }
-				} else { e["kind"] = "echo"; e["req"] = gen_req(r,prop,thorough,async_mount,i); if(i != nreq-1 && e.get("req").gets("host") == "fwd.example") e["req"]["host"] = "sim.example"; }   /* the relay closes the front connection when it is done: a forwarded request is the last one of its connection */
+				} else { e["kind"] = "echo"; e["req"] = gen_req(r,prop,thorough,async_mount,i); if(i == nreq-1 && !bad_conn && !fwd_plan && (prop == "C01" || prop == "C02") && e.get("req").gets("script") != "/f" && r.below(12) == 0){ e["req"]["path"] = "/throw"; } if(i != nreq-1 && e.get("req").gets("host") == "fwd.example") e["req"]["host"] = "sim.example"; }   /* the relay closes the front connection when it is done: a forwarded request is the last one of its connection */
 				J fl = J::obj(); J pc = J::arr(); int npc = r.below(5); for(int k=0;k<npc;k++) pc.push((int)(1 + r.below(r.below(2) ? 8 : 400))); fl["params_chunks"] = pc; J sc2 = J::arr(); int nsc = r.below(5); for(int k=0;k<nsc;k++) sc2.push((int)(1 + r.below(r.below(2) ? 16 : 70000))); fl["stdin_chunks"] = sc2;
 				J pd = J::arr(); int npd = r.below(6); for(int k=0;k<npd;k++) pd.push((int)r.below(r.below(2) ? 8 : 256)); fl["paddings"] = pd; fl["request_id"] = 1 + (int)r.below(r.below(2) ? 3 : 65535); e["fcgi"] = fl;
 				e["seg"] = gen_segs(r,600);
 				// a slow peer: the head of the request trickles in over more than http.timeout, every pause well below it (an inactivity time-out must not fire)
 				if(r.below(12) == 0){ J sg = J::arr(), dl = J::arr(); int n = 4 + (int)r.below(5); int T = (int)cfg.geti("http_timeout",10); for(int k=0;k<n;k++){ sg.push(5 + (int)r.below(40)); dl.push((int)(T * (200 + (int)r.below(250)))); } e["seg"] = sg; e["seg_delay_ms"] = dl; }
-				if(bad_conn && i == nreq-1){ e["mut"] = gen_mutation(r,proto); if(prop == "C12"){ static const char *up[] = {"mp_cut","mp_cut","mp_cut","mp_no_final_boundary","mp_bad_part_header","mp_no_name","cl_bigger","cl_over_limit","truncate"}; e["mut"]["op"] = up[r.below(9)]; } if(e.gets("kind") == "writer"){ e["kind"] = "echo"; e["req"] = gen_req(r,prop,thorough,async_mount,i); } }
+				if(bad_conn && i == nreq-1){ e["mut"] = gen_mutation(r,proto); if(prop == "C12"){ static const char *up[] = {"mp_cut","mp_cut","mp_cut","mp_no_final_boundary","mp_bad_part_header","mp_no_name","cl_bigger","cl_over_limit","truncate"}; e["mut"]["op"] = up[r.below(9)]; } if(cfg.geti("huge_limits_kb") && e.get("mut").gets("op") == "cl_over_limit") e["mut"]["two_gig"] = 1; if(e.gets("kind") == "writer"){ e["kind"] = "echo"; e["req"] = gen_req(r,prop,thorough,async_mount,i); } }
 				exs.push(e); }
 			c["ex"] = exs; conns.push(c); }
 		// late staller (C02): the first connection stalls in the middle of its request head and is cut by the inactivity watchdog; long after that - when the server has been
@@ -493,11 +521,13 @@ struct E1 : Engine {
 		else if(op == "cl_duplicate"){ size_t h = w.find("\r\n\r\n"); if(h != std::string::npos) w.insert(h+2,"Content-Length: " + std::to_string(len) + "\r\n"); }
 		else if(op == "cl_bigger" || op == "cl_smaller" || op == "cl_over_limit"){
 			Req q2 = q; if(!q2.has_body){ q2.has_body = true; q2.method = "POST"; q2.content_type = "application/octet-stream"; q2.body = gen_bytes(7,20 + len % 200,1); }
-			size_t real = q2.body.size(); size_t decl = op == "cl_bigger" ? real + 1 + len % 50 : op == "cl_smaller" ? (real > 0 ? real - 1 - (len % real) % real : 0) : 5000000 + len;
+			bool two_gig = op == "cl_over_limit" && m.geti("two_gig");   /* the limits admit it (2 GiB and more configured): an upload announced with 2^31 bytes or more, of which only the beginning ever arrives */
+			if(two_gig){ q2.method = "POST"; q2.content_type = "multipart/form-data; boundary=zz2g"; q2.body = "--zz2g\r\nContent-Disposition: form-data; name=\"big\"; filename=\"big.bin\"\r\nContent-Type: application/octet-stream\r\n\r\n" + gen_bytes(9,20 + len % 300,1); q2.parts.clear(); q2.boundary.clear(); }
+			size_t real = q2.body.size(); size_t decl = two_gig ? (size_t)2147483648ULL + (size_t)len * 1000003ULL : op == "cl_bigger" ? real + 1 + len % 50 : op == "cl_smaller" ? (real > 0 ? real - 1 - (len % real) % real : 0) : 5000000 + len;
 			if(proto == 0){ std::string w2 = http_encode(q2,http11,e.keepalive); w = find_replace_header(w2,"Content-Length","Content-Length: " + std::to_string(decl) + "\r\n"); }
 			else { Pairs v = cgi_env(q2,proto,http11); for(auto &kv:v) if(kv.first == "CONTENT_LENGTH") kv.second = std::to_string(decl); w = reencode(v,q2.body,proto,e); }
 			if(op == "cl_bigger"){ e.must_not_serve = true; if(e.after == "wait" && proto != 0) e.after = "halfclose"; }      // body shorter than declared
-			if(op == "cl_over_limit"){ e.must_not_serve = true; e.expect_413 = true; } }
+			if(op == "cl_over_limit"){ e.must_not_serve = true; e.expect_413 = !two_gig; if(two_gig && e.after == "wait" && proto != 0) e.after = "halfclose"; } }
 		else if(op == "header_16k"){ size_t h = w.find("\r\n");
 			if(h != std::string::npos){
 				if(n % 2){ w.insert(h+2,"X-Big: " + std::string(17000 + len,'a') + "\r\n"); }                         // oversized but terminated: cppcms may serve it, nothing is demanded
@@ -594,6 +624,7 @@ struct E1 : Engine {
 		std::vector<std::unique_ptr<Client>> clients; int n_pipelined = 0;
 		std::string run_exception; int conn_leak = 0; std::string upload_dir;
 		size_t content_limit_cfg = (size_t)std::max<int64_t>(1,std::min<int64_t>(plan.get("cfg").geti("content_limit_kb",2048),4096)) * 1024, multipart_limit_cfg = (size_t)std::max<int64_t>(1,std::min<int64_t>(plan.get("cfg").geti("multipart_limit_kb",2048),4096)) * 1024;
+		int64_t huge_kb = std::max<int64_t>(0,std::min<int64_t>(plan.get("cfg").geti("huge_limits_kb"),1LL << 30)); if(huge_kb >= 2097152){ content_limit_cfg = multipart_limit_cfg = (size_t)huge_kb * 1024; } else huge_kb = 0;
 		{
 			cppcms::json::value v;
 			v["service"]["list"][0]["api"] = "http"; v["service"]["list"][0]["ip"] = "127.0.0.1"; v["service"]["list"][0]["port"] = 8080;
@@ -606,23 +637,28 @@ struct E1 : Engine {
 			v["gzip"]["enable"] = (bool)cfg.geti("gzip"); if(cfg.geti("gzip_level",-1) >= 0) v["gzip"]["level"] = (int)std::min<int64_t>(cfg.geti("gzip_level"),9); if(cfg.geti("gzip_buffer") > 0) v["gzip"]["buffer"] = (int)cfg.geti("gzip_buffer");
 			v["cache"]["backend"] = "thread_shared"; v["cache"]["limit"] = 16;
 			v["localization"]["locales"][0] = "C"; v["localization"]["backend"] = "std"; v["logging"]["stderr"] = false; v["logging"]["level"] = "error";
+			if(cfg.geti("proxy_behind")) v["http"]["proxy"]["behind"] = true;
 			if(cfg.geti("syslog")){ v["logging"]["syslog"]["enable"] = true; v["logging"]["syslog"]["id"] = "verif"; v["logging"]["level"] = cfg.geti("syslog") == 2 ? "info" : "error"; }   // the syslog sink formats every record (at level info: one per HTTP request, carrying the peer's request line); there is no /dev/log here, the datagram goes nowhere
 			v["security"]["content_length_limit"] = 2048; v["security"]["multipart_form_data_limit"] = 2048; v["security"]["display_error_message"] = false;
 			{ char pb[16]; snprintf(pb,sizeof(pb),"%07d",(int)getpid()); upload_dir = runner::g_scratch + "/up" + pb; }   /* fixed length, see runner.h */ mkdir(upload_dir.c_str(),0700);
 			v["security"]["uploads_path"] = upload_dir; aw.save_dir = upload_dir + ".saved"; mkdir(aw.save_dir.c_str(),0700);
 			v["security"]["content_length_limit"] = (int)std::max<int64_t>(1,std::min<int64_t>(cfg.geti("content_limit_kb",2048),4096)); v["security"]["multipart_form_data_limit"] = (int)std::max<int64_t>(1,std::min<int64_t>(cfg.geti("multipart_limit_kb",2048),4096)); v["security"]["file_in_memory_limit"] = (int)std::max<int64_t>(0,std::min<int64_t>(cfg.geti("file_in_memory_limit",128*1024),1<<22));
+			if(huge_kb){ v["security"]["content_length_limit"] = (int)huge_kb; v["security"]["multipart_form_data_limit"] = (int)huge_kb; }
 			v["forwarding"]["rules"][0]["host"] = "fwd\\.example"; v["forwarding"]["rules"][0]["ip"] = "127.0.0.1"; v["forwarding"]["rules"][0]["port"] = 8090;
 			// the back-end of the forwarding rule: a second service in this process, SCGI only, same applications, no rules of its own
 			cppcms::json::value v2 = v; { cppcms::json::value none; v2["forwarding"] = none; v2["service"]["list"] = none; v2["service"]["api"] = "scgi"; v2["service"]["ip"] = "127.0.0.1"; v2["service"]["port"] = 8090; v2["service"]["worker_threads"] = 1; }
-			std::unique_ptr<cppcms::service> srv, srv2;
+			std::unique_ptr<cppcms::service> srv, srv2; booster::intrusive_ptr<cppcms::application> legacy_async_app;   /* legacy mount of a ready-made asynchronous application: the caller's reference keeps it alive (as in the examples: the pointer lives next to service::run()) */
 			try {
 				srv2.reset(new cppcms::service(v2));
 				srv2->applications_pool().mount(cppcms::create_pool<TestApp>(),cppcms::mount_point("/s"),cppcms::app::synchronous);
 				srv2->applications_pool().mount(cppcms::create_pool<TestApp>(),cppcms::mount_point("/a"),cppcms::app::asynchronous);
 				srv.reset(new cppcms::service(v));
 				srv->applications_pool().mount(cppcms::create_pool<HostApp>(),cppcms::mount_point(cppcms::mount_point::match_path_info,booster::regex("internal\\.example(:\\d+)?"),booster::regex("/s"),booster::regex(),0),cppcms::app::synchronous);
-				srv->applications_pool().mount(cppcms::create_pool<TestApp>(),cppcms::mount_point("/s"),cppcms::app::synchronous);
-				srv->applications_pool().mount(cppcms::create_pool<TestApp>(),cppcms::mount_point("/a"),cppcms::app::asynchronous);
+				/* the ways an application can be attached: pooled objects (default), one object per worker thread, objects made ahead of the first request, and the two legacy forms (a factory; one ready-made asynchronous object) */
+				int ms = (int)(((cfg.geti("mount_style") % 4) + 4) % 4); res.counters[ms == 0 ? "mount_pooled" : ms == 1 ? "mount_thread_specific" : ms == 2 ? "mount_prepopulated" : "mount_legacy"] = 1;
+				if(ms == 3){ srv->applications_pool().mount(cppcms::applications_factory<TestApp>(),cppcms::mount_point("/s")); legacy_async_app = new TestApp(*srv); srv->applications_pool().mount(legacy_async_app,cppcms::mount_point("/a")); }
+				else { srv->applications_pool().mount(cppcms::create_pool<TestApp>(),cppcms::mount_point("/s"),cppcms::app::synchronous | (ms == 1 ? cppcms::app::thread_specific : ms == 2 ? cppcms::app::prepopulated : 0));
+					srv->applications_pool().mount(cppcms::create_pool<TestApp>(),cppcms::mount_point("/a"),cppcms::app::asynchronous | (ms == 2 ? cppcms::app::prepopulated : 0)); }
 				srv->applications_pool().mount(cppcms::create_pool<FilterApp>(),cppcms::mount_point("/f"),cppcms::app::asynchronous | cppcms::app::content_filter);
 			} catch(std::exception const &e){ res.fail("setup-failed",e.what()); }
 			if(res.ok){
@@ -640,7 +676,7 @@ struct E1 : Engine {
 					if(cl->ex.empty()) continue;
 					simk::add_actor(cl.get()); clients.push_back(std::move(cl)); }
 				cppcms::service *sv = srv.get(); std::vector<std::unique_ptr<Client>> *cls = &clients;
-				if(clients.empty()){ simk::clear_actors(); srv.reset(); simk::end(); AW = nullptr; return res; }   // nothing to serve (only reachable by shrinking): shutdown() before run() has set up its notification socket is outside the properties
+				if(clients.empty()){ simk::clear_actors(); legacy_async_app = 0; srv.reset(); simk::end(); AW = nullptr; return res; }   // nothing to serve (only reachable by shrinking): shutdown() before run() has set up its notification socket is outside the properties
 				int64_t settle_us = (v.get<int>("http.timeout") + 4) * 1000000LL; int *leakp = &conn_leak;
 				bool loop_running = false; bool *lrp = &loop_running;
 				sv->post([lrp]{ *lrp = true; });      // runs once service::run() has finished its set-up and entered the event loop
@@ -656,7 +692,7 @@ struct E1 : Engine {
 				stopper.join();
 			}
 			simk::clear_actors();
-			try { srv.reset(); srv2.reset(); } catch(std::exception const &e){ res.fail("exception-in-destructor",e.what()); }
+			try { legacy_async_app = 0; srv.reset(); srv2.reset(); } catch(std::exception const &e){ res.fail("exception-in-destructor",e.what()); }
 		}
 		if(!run_exception.empty()) res.fail("exception-escaped",run_exception);
 		res.hash = simk::trace_hash();
@@ -666,7 +702,7 @@ struct E1 : Engine {
 		AW = nullptr;
 		// ------------------------------------------------------------ oracles
 		std::map<std::string,std::string> cache_pages;
-		int n_raw = 0, n_aborted = 0; int n_disk_refused = 0; int n_on_error = 0; int n_filtered = 0, n_filter_reads = 0, n_host_app = 0, n_xlimit = 0, n_forwarded = 0; int n_over_limit = 0; int n_gzip_empty = 0; int n_bad = 0, n_bad_refused = 0; int n_cache_hits = 0; int n_ex = 0, n_multi_seg = 0, n_body = 0, n_keepalive_followups = 0, n_writer = 0, n_gzip = 0, n_chunked = 0;
+		int n_raw = 0, n_aborted = 0; int n_thrown = 0, n_abort_answers = 0; int n_proxy_addr = 0; bool proxy_behind = cfg.geti("proxy_behind") != 0; int n_disk_refused = 0; int n_on_error = 0; int n_filtered = 0, n_filter_reads = 0, n_host_app = 0, n_xlimit = 0, n_forwarded = 0; int n_over_limit = 0; int n_gzip_empty = 0; int n_bad = 0, n_bad_refused = 0; int n_cache_hits = 0; int n_ex = 0, n_multi_seg = 0, n_body = 0, n_keepalive_followups = 0, n_writer = 0, n_gzip = 0, n_chunked = 0;
 		for(auto &cl:clients){ int port = 8080; bool conn_had_error = false; bool aborted_conn = false;
 			for(size_t i=0;i<cl->ex.size() && res.ok;i++){ Exchange &e = cl->ex[i]; n_ex++; if(e.seg.size() > 1) n_multi_seg++; if(e.req.has_body && !e.req.body.empty()) n_body++; if(i > 0 && !e.conn_closed_early) n_keepalive_followups++;
 				std::string who = std::string(cl->proto == 0 ? "http" : cl->proto == 1 ? "scgi" : "fastcgi") + " " + e.req.script + " request " + e.tag;
@@ -698,6 +734,11 @@ struct E1 : Engine {
 				size_t multipart_limit = e.req.script == "/f" && e.req.xlimit >= 0 ? (size_t)e.req.xlimit : multipart_limit_cfg, content_limit = e.req.script == "/f" && e.req.xlimit >= 0 ? (size_t)e.req.xlimit : content_limit_cfg; if(e.req.script == "/f" && e.req.xlimit >= 0) n_xlimit++;
 				bool over = false; if(!e.is_writer && e.req.has_body){ if(!e.req.boundary.empty()){ over = e.req.body.size() > multipart_limit; if(!raw_filtered) for(auto &pt:e.req.parts) if(pt.ctype.empty() && pt.content.size() > content_limit) over = true; } else over = e.req.body.size() > content_limit; }
 				if(e.resp.complete && e.resp.status >= 400) conn_had_error = true;
+				/* a content filter (or the application, at the header stage) refused the upload with abort_upload(code): that code is the answer, the handler never sees the request */
+				int abort_code = 0; if(!e.is_writer && e.req.script == "/f" && e.req.has_body && !e.req.body.empty()){ bool mp = e.req.path.compare(0,7,"/echomp") == 0 && !e.req.boundary.empty();
+					if(mp && !e.req.parts.empty() && e.req.path.size() > 7 && e.req.path[7] == '4') abort_code = 403; else if(mp && !e.req.parts.empty() && e.req.path.size() > 7 && e.req.path[7] == '5') abort_code = 422; else if(e.req.path == "/abortraw") abort_code = 415; else if(e.req.path == "/aborthdr") abort_code = 401; }
+				if(abort_code && e.resp.status == abort_code){ int ent0 = aw.entered.count(e.tag) ? aw.entered[e.tag] : 0; if(ent0 != 0){ res.fail("aborted-upload-reached-application",who + ": the upload was refused with abort_upload(" + std::to_string(abort_code) + ") and the handler ran all the same"); break; } n_abort_answers++; continue; }
+				if(abort_code && !over && !(st.stdio_fail && (e.resp.status == 413 || e.resp.status == 500 || e.resp.status == 503))){ res.fail("unexpected-status",who + ": the content filter refused the upload with abort_upload(" + std::to_string(abort_code) + "), the peer got status " + std::to_string(e.resp.status)); break; }
 				if(over){ n_over_limit++; int ent0 = aw.entered.count(e.tag) ? aw.entered[e.tag] : 0;
 					if(e.resp.status != 413){ res.fail("limit-not-enforced",who + ": body of " + std::to_string(e.req.body.size()) + " bytes exceeds the configured limit but was answered with status " + std::to_string(e.resp.status)); break; }
 					if(ent0 != 0){ res.fail("limit-not-enforced",who + ": over-limit request reached the application"); break; }
@@ -705,15 +746,18 @@ struct E1 : Engine {
 				if(st.stdio_fail && !e.req.boundary.empty() && !raw_filtered && (e.resp.status == 413 || e.resp.status == 500 || e.resp.status == 503)){   // the disk failed under an upload: refusing the request is right, delivering it in part is not
 					if(aw.entered.count(e.tag) && aw.entered[e.tag]){ res.fail("refused-upload-reached-application",who + ": answered " + std::to_string(e.resp.status) + " after a disk error but the application ran"); break; } n_disk_refused++; continue; }
 				int want_status = e.is_writer && e.script.size() > 1 && e.script[0] == 'r' && (e.salt & 1) ? 203 : 200;   // raw mode: the application's own Status header decides
-				if(e.resp.status != want_status){ res.fail("unexpected-status",who + ": status " + std::to_string(e.resp.status) + (want_status == 200 ? " for a well-formed request" : " although the application's header block said 203") + "; body " + esc(e.resp.body.substr(0,200))); break; }
+				bool thrower = !e.is_writer && e.req.path == "/throw" && e.req.script != "/f"; if(thrower) want_status = 500;
+				if(e.resp.status != want_status){ res.fail("unexpected-status",who + ": status " + std::to_string(e.resp.status) + (want_status == 200 ? " for a well-formed request" : want_status == 500 ? " for a request whose handler threw an exception (500 expected)" : " although the application's header block said 203") + "; body " + esc(e.resp.body.substr(0,200))); break; }
 				int ent = aw.entered.count(e.tag) ? aw.entered[e.tag] : 0;
 				if(ent != 1){ res.fail(ent == 0 ? "handler-not-entered" : "handler-entered-twice",who + ": main() entered " + std::to_string(ent) + " times"); break; }
+				if(thrower){ n_thrown++; continue; }
 				std::string body = e.resp.body;
 				if(lower(hdr(e.resp,"Content-Encoding")) == "gzip" && body.empty()){ n_gzip_empty++; }   // nothing was written: cppcms announces gzip but sends no stream; the body still equals what the application wrote (DESIGN.md, observations)
 				else if(lower(hdr(e.resp,"Content-Encoding")) == "gzip"){ bool ok; body = gunzip(body,ok); n_gzip++; if(!ok){ res.fail("bad-gzip-stream",who + ": response body (" + std::to_string(e.resp.body.size()) + " bytes) is not a complete gzip stream; raw response head: " + esc(e.raw.substr(0,400))); break; } if(!e.accept_gzip){ res.fail("unrequested-gzip",who + ": gzip without Accept-Encoding"); break; } }
 				if(e.resp.chunked) n_chunked++;
 				if(!e.is_writer){
 					Expect x = expect(e.req,cl->proto,e.http11,cl->proto == 0 && e.keepalive,port);
+					if(proxy_behind && cl->proto == 0){ auto it = x.env.find("HTTP_X_FORWARDED_FOR"); if(it != x.env.end() && !it->second.empty()){ std::string a = it->second; x.env["REMOTE_ADDR"] = a; x.env["REMOTE_HOST"] = a; n_proxy_addr++; } }   /* http.proxy.behind: the address the proxy reports for THIS request */
 					// forwarded (forwarding.rules): the back-end receives the environment of the front connection as it is, plus CONTENT_LENGTH=0 when there was none
 					if(e.req.host == "fwd.example"){ if(!x.env.count("CONTENT_LENGTH")) x.env["CONTENT_LENGTH"] = "0"; n_forwarded++; }
 					std::string want;
@@ -722,8 +766,8 @@ struct E1 : Engine {
 						if(!mp){ // raw filter: the application parses nothing, the filter saw every byte exactly once
 							want = echo_text(x.env,x.get,Pairs(),x.cookies,"",std::vector<std::string>()) + "X mode=1 end=1 err=0 raw " + blob(e.req.body) + " chunks>0=1\n"; }
 						else { want = echo_text(x.env,x.get,x.post,x.cookies,x.body,x.files) + "X mode=2 end=1 err=0 new=" + std::to_string(e.req.parts.size()) + " ready=" + std::to_string(e.req.parts.size()) + " shrank=0";
-							int behav = e.req.path.size() > 7 && e.req.path[7] >= '1' && e.req.path[7] <= '3' ? e.req.path[7] - '0' : 0;
-							if(behav){ std::string seen; for(auto &pt:e.req.parts) seen += behav == 3 ? pt.name + ":" + pt.content.substr(0,4) + ";" : pt.name + ":" + std::to_string(pt.content.size()) + ":" + std::to_string((unsigned long long)wire::fnv(pt.content)) + ";"; want += " behav=" + std::to_string(behav) + " seen=" + std::to_string((unsigned long long)wire::fnv(seen)) + " badprog=0"; n_filter_reads++; }
+							int behav = e.req.path.size() > 7 && e.req.path[7] >= '1' && e.req.path[7] <= '5' ? e.req.path[7] - '0' : 0;
+							if(behav){ std::string seen; if(behav <= 3) for(auto &pt:e.req.parts) seen += behav == 3 ? pt.name + ":" + pt.content.substr(0,4) + ";" : pt.name + ":" + std::to_string(pt.content.size()) + ":" + std::to_string((unsigned long long)wire::fnv(pt.content)) + ";"; want += " behav=" + std::to_string(behav) + " seen=" + std::to_string((unsigned long long)wire::fnv(seen)) + " badprog=0"; n_filter_reads++; }
 							want += "\n"; } }
 					else want = echo_text(x.env,x.get,x.post,x.cookies,x.body,x.files);
 					if(e.req.script == "/s" && wire::internal_host(e.req.host)){ want = "H internal\n" + want; n_host_app++; }
@@ -748,6 +792,8 @@ struct E1 : Engine {
 						if(hdr(e.resp,"X-Raw") != "yes"){ res.fail("response-header-missing",who + ": header X-Raw written by the application in raw mode is missing"); break; } }
 					while(p < sc.size() && !served_from_cache){ size_t q = sc.find('.',p); if(q == std::string::npos) q = sc.size(); std::string t = sc.substr(p,q-p); p = q + 1; if(t.size() < 2) continue; long n = strtol(t.c_str()+1,nullptr,10);
 						if(t[0] == 'h' && hdr(e.resp,"X-T" + std::to_string(n)) != "v" + std::to_string(n*7)){ res.fail("response-header-missing",who + ": header X-T" + std::to_string(n) + " set by the application is missing or wrong"); break; }
+						if(t[0] == 'H'){ bool found = false; for(auto &h:e.resp.headers) if(lower(h.first) == "x-a" && h.second == "a" + std::to_string(n)) found = true; if(!found){ res.fail("response-header-missing",who + ": header line X-A: a" + std::to_string(n) + " added by the application with add_header() is missing"); break; } }
+						if(t[0] == 'e' && !hdr(e.resp,"X-E" + std::to_string(n)).empty()){ res.fail("erased-header-sent",who + ": header X-E" + std::to_string(n) + " was erased by the application before any output and was sent all the same"); break; }
 						if(t[0] == 'c'){ bool found = false; for(auto &h:e.resp.headers) if(lower(h.first) == "set-cookie" && h.second.find("ck" + std::to_string(n) + "=cv" + std::to_string(n*3)) != std::string::npos) found = true; if(!found){ res.fail("response-header-missing",who + ": cookie ck" + std::to_string(n) + " set by the application is missing"); break; } } }
 				}
 			} }
@@ -757,8 +803,12 @@ struct E1 : Engine {
 		if(res.ok && conn_leak) res.fail("connection-not-released",std::to_string(conn_leak) + " accepted connections were still open after every peer had gone and the longest time-out had passed");
 		if(res.ok) for(auto &kv:aw.on_error){ if(kv.second > 1) res.fail("upload-error-notified-twice","request " + kv.first + ": content filter on_error() called " + std::to_string(kv.second) + " times"); else if(aw.completed.count(kv.first)) res.fail("error-and-completion","request " + kv.first + ": on_error() was called and the handler completed as well"); n_on_error += kv.second; }
 		if(res.ok && leaked) res.fail("descriptor-leak",std::to_string(leaked) + " simulated descriptors still open after the service was destroyed");
+		/* every context::async_flush_output() of a response the peer received completely has had its handler called once with operation_completed */
+		if(res.ok) for(auto &cl:clients) for(auto &e:cl->ex){ if(!e.is_writer || !e.done || e.aborted || e.tag.empty()) continue; int is = aw.flush_issued.count(e.tag) ? aw.flush_issued[e.tag] : 0, dn = aw.flush_done.count(e.tag) ? aw.flush_done[e.tag] : 0, ab = aw.flush_aborted.count(e.tag) ? aw.flush_aborted[e.tag] : 0;
+			if(ab || dn != is){ res.fail("async-flush-handler-miscounted","request " + e.tag + ": the application called async_flush_output " + std::to_string(is) + " times; its handler ran " + std::to_string(dn) + " times with operation_completed and " + std::to_string(ab) + " times with operation_aborted although the peer read the whole response"); break; } }
+		res.counters["async_flush_output_calls"] = aw.async_flushes; res.counters["responses_continued_on_a_later_event"] = aw.deferred_continuations;
 		if(res.ok && !aw.exception.empty()) res.fail("exception-escaped",aw.exception);
-		res.counters["raw_mode_responses"] = n_raw; res.counters["client_aborts_mid_response"] = n_aborted; res.counters["filter_on_error_calls"] = n_on_error; res.counters["content_filter_requests"] = n_filtered; res.counters["filter_reads_parts"] = n_filter_reads; res.counters["requests_with_own_limits"] = n_xlimit; res.counters["forwarded_requests"] = n_forwarded; res.counters["host_mounted_app_requests"] = n_host_app; res.counters["accept_emfile"] = (long long)simk::stats().accept_emfile; res.counters["filters_installed"] = aw.filters_installed; res.counters["over_limit_413"] = n_over_limit; res.counters["gzip_announced_empty_body"] = n_gzip_empty; res.counters["malformed_exchanges"] = n_bad; res.counters["malformed_refused_as_required"] = n_bad_refused; res.counters["page_cache_hits"] = n_cache_hits; res.counters["exchanges"] = n_ex; res.counters["multi_segment_requests"] = n_multi_seg; res.counters["requests_with_body"] = n_body; res.counters["keepalive_followups"] = n_keepalive_followups; res.counters["writer_responses"] = n_writer; res.counters["gzip_responses"] = n_gzip; res.counters["chunked_responses"] = n_chunked;
+		res.counters["raw_mode_responses"] = n_raw; res.counters["client_aborts_mid_response"] = n_aborted; res.counters["filter_on_error_calls"] = n_on_error; res.counters["content_filter_requests"] = n_filtered; res.counters["filter_reads_parts"] = n_filter_reads; res.counters["requests_with_own_limits"] = n_xlimit; res.counters["forwarded_requests"] = n_forwarded; res.counters["remote_addr_from_proxy_header"] = n_proxy_addr; res.counters["handler_exceptions_answered_500"] = n_thrown; res.counters["uploads_refused_by_abort_upload"] = n_abort_answers; res.counters["runs_with_limits_of_2g_and_more"] = huge_kb ? 1 : 0; res.counters["host_mounted_app_requests"] = n_host_app; res.counters["accept_emfile"] = (long long)simk::stats().accept_emfile; res.counters["filters_installed"] = aw.filters_installed; res.counters["over_limit_413"] = n_over_limit; res.counters["gzip_announced_empty_body"] = n_gzip_empty; res.counters["malformed_exchanges"] = n_bad; res.counters["malformed_refused_as_required"] = n_bad_refused; res.counters["page_cache_hits"] = n_cache_hits; res.counters["exchanges"] = n_ex; res.counters["multi_segment_requests"] = n_multi_seg; res.counters["requests_with_body"] = n_body; res.counters["keepalive_followups"] = n_keepalive_followups; res.counters["writer_responses"] = n_writer; res.counters["gzip_responses"] = n_gzip; res.counters["chunked_responses"] = n_chunked;
 		{ long long np = 0, nr = 0; for(auto &cl:clients){ np += cl->n_pauses; nr += cl->n_read_pauses; } res.counters["slow_peer_pauses"] = np; res.counters["slow_reader_pauses"] = nr; }
 		res.counters["pipelined_requests"] = n_pipelined;
 		res.counters["disk_faults_injected"] = (long long)st.stdio_fail; res.counters["upload_spill_stdio_calls"] = (long long)st.stdio_ops; res.counters["uploads_refused_after_disk_fault"] = n_disk_refused;
